@@ -258,6 +258,8 @@ pub struct Client {
     parsed_upto: usize,
     pub resps: Vec<Resp>,
     pub malformed: Option<String>,
+    /// the peer sent more than any answer could need (unsolicited flood); reading stopped
+    pub flooded: bool,
 }
 
 static SRC_ROT: std::sync::atomic::AtomicU32 = std::sync::atomic::AtomicU32::new(0);
@@ -273,7 +275,7 @@ impl Client {
             SocketAddr::V4(a) => a,
             _ => unreachable!(),
         };
-        Ok(Client { sock, local, server_fd: None, rbuf: vec![], eof: false, reset: false, parsed_upto: 0, resps: vec![], malformed: None })
+        Ok(Client { sock, local, server_fd: None, rbuf: vec![], eof: false, reset: false, parsed_upto: 0, resps: vec![], malformed: None, flooded: false })
     }
 
     /// find the accepted socket of this connection inside this process
@@ -381,18 +383,31 @@ impl Client {
 
     /// non-blocking read of whatever has arrived
     pub fn read_available(&mut self) {
-        if self.eof || self.reset {
+        if self.eof || self.reset || self.flooded {
             return;
         }
         let _ = self.sock.set_nonblocking(true);
         let mut tmp = [0u8; 65536];
+        let mut got = 0usize;
         loop {
+            // bounded work per call, bounded total: a server that floods the client must not hang the harness
+            if got > (8 << 20) {
+                break;
+            }
+            if self.rbuf.len() > (96 << 20) {
+                self.flooded = true;
+                self.malformed = Some(format!("the server sent more than {} bytes on this connection (unsolicited flood)", self.rbuf.len()));
+                break;
+            }
             match self.sock.read(&mut tmp) {
                 Ok(0) => {
                     self.eof = true;
                     break;
                 }
-                Ok(n) => self.rbuf.extend_from_slice(&tmp[..n]),
+                Ok(n) => {
+                    got += n;
+                    self.rbuf.extend_from_slice(&tmp[..n])
+                }
                 Err(e) if e.kind() == std::io::ErrorKind::WouldBlock => break,
                 Err(e) if e.kind() == std::io::ErrorKind::Interrupted => continue,
                 Err(_) => {
